@@ -44,6 +44,39 @@ type c08ChildResult struct {
 }
 
 const c08Batch = 50
+const c08Segment = 1000
+
+func c08JournalPath(dir string, w, seg int) string {
+	return filepath.Join(dir, fmt.Sprintf("journal-%d-%d.bin", w, seg))
+}
+
+// c08LastInputs returns the inputs of the last two journal segments of worker w
+// together with the index of the first one.
+func c08LastInputs(dir string, w int) ([][]byte, int) {
+	last := -1
+	for s := 0; ; s++ {
+		if _, err := os.Stat(c08JournalPath(dir, w, s)); err != nil {
+			if s > last+2 {
+				break
+			}
+			continue
+		}
+		last = s
+	}
+	if last < 0 {
+		return nil, 0
+	}
+	var out [][]byte
+	first := last * c08Segment
+	if last > 0 {
+		if prev := c08ReadJournal(c08JournalPath(dir, w, last-1)); prev != nil {
+			out = append(out, prev...)
+			first = (last - 1) * c08Segment
+		}
+	}
+	out = append(out, c08ReadJournal(c08JournalPath(dir, w, last))...)
+	return out, first
+}
 
 func c08Seeds(g *sip.Gen, w int, n int) [][]byte {
 	hop := fmt.Sprintf("127.4.%d.201", w)
@@ -118,8 +151,11 @@ func c08Child(spec string) {
 		b, _ := json.Marshal(res)
 		os.WriteFile(filepath.Join(dir, fmt.Sprintf("result-%d.json", w)), b, 0o644)
 	}
-	journal, _ := os.Create(filepath.Join(dir, fmt.Sprintf("journal-%d.bin", w)))
-	defer journal.Close()
+	// the journal only has to name the inputs around a death: it is kept in segments
+	// of c08Segment inputs of which the last two survive
+	seg := 0
+	journal, _ := os.Create(c08JournalPath(dir, w, seg))
+	defer func() { journal.Close() }()
 	dynamicHostResolver.Stop()
 	routes := NewPreConfigRoute()
 	routes.AddRouteItem("udp", "exact.verif.test", fmt.Sprintf("127.4.%d.201:5060", w))
@@ -179,6 +215,12 @@ func c08Child(spec string) {
 			in = in[:65535]
 		}
 		// journal first
+		if i > 0 && i%c08Segment == 0 {
+			journal.Close()
+			seg++
+			journal, _ = os.Create(c08JournalPath(dir, w, seg))
+			os.Remove(c08JournalPath(dir, w, seg-2))
+		}
 		var hdr [8]byte
 		binary.LittleEndian.PutUint32(hdr[:4], uint32(i))
 		binary.LittleEndian.PutUint32(hdr[4:], uint32(len(in)))
@@ -394,11 +436,11 @@ func TestVerifC08(t *testing.T) {
 			key, _ := v["key"].(string)
 			if key == "message loop stalled" || strings.HasPrefix(key, "memory") {
 				// narrow down to one input by replaying the batch one by one in a fresh child
-				inputs := c08ReadJournal(filepath.Join(dir, fmt.Sprintf("journal-%d.bin", w)))
+				inputs, base := c08LastInputs(dir, w)
 				first, _ := v["first_input_of_batch"].(float64)
 				last, _ := v["last_input"].(float64)
-				if int(last) < len(inputs) {
-					batch := inputs[int(first) : int(last)+1]
+				if int(first)-base >= 0 && int(last)-base < len(inputs) {
+					batch := inputs[int(first)-base : int(last)-base+1]
 					rp := filepath.Join(dir, fmt.Sprintf("replay-%d.bin", w))
 					c08WriteJournal(rp, batch)
 					os.Remove(filepath.Join(dir, fmt.Sprintf("result-%d.json", w+100)))
@@ -423,8 +465,8 @@ func TestVerifC08(t *testing.T) {
 				return
 			}
 			// the child died: the last journalled input is the suspect; confirm alone
-			inputs := c08ReadJournal(filepath.Join(dir, fmt.Sprintf("journal-%d.bin", w)))
-			detail := map[string]any{"child_exit": exitErr, "stderr": tail, "inputs_journalled": len(inputs)}
+			inputs, base := c08LastInputs(dir, w)
+			detail := map[string]any{"child_exit": exitErr, "stderr": tail, "inputs_journalled": base + len(inputs)}
 			if len(inputs) > 0 {
 				killer := inputs[len(inputs)-1]
 				detail["last_input_b64"] = base64.StdEncoding.EncodeToString(killer)
@@ -439,7 +481,7 @@ func TestVerifC08(t *testing.T) {
 				r2, e2, t2 := c08RunChild(dir, run.Seed, w+200, len(inputs)-from, "VF_C08_REPLAY="+rp, "VF_C08_SINGLE=1")
 				detail["replay_of_last_inputs"] = map[string]any{"exit": e2, "stderr": t2, "done": r2.Done}
 				if e2 != "" || !r2.Done {
-					rin := c08ReadJournal(filepath.Join(dir, fmt.Sprintf("journal-%d.bin", w+200)))
+					rin, _ := c08LastInputs(dir, w+200)
 					if len(rin) > 0 {
 						detail["confirmed_killer_b64"] = base64.StdEncoding.EncodeToString(rin[len(rin)-1])
 						detail["confirmed_killer_text"] = c08Printable(rin[len(rin)-1])
